@@ -71,6 +71,9 @@ var InitAllow func(string) bool
 var Hooks = map[string]func(fr *frame, args []value) value{}
 var HookHits = map[string]int{}
 
+// PreHooks run before the real body of a function (path-event detectors).
+var PreHooks = map[string]func(fr *frame, args []value){}
+
 func mustDeref(t types.Type) types.Type {
 	if p, ok := t.Underlying().(*types.Pointer); ok {
 		return p.Elem()
@@ -573,6 +576,9 @@ func callSSA(i *interpreter, caller *frame, callpos token.Pos, fn *ssa.Function,
 		}
 		if X != nil && strings.HasPrefix(pkgPath, "github.com/jrhy/") && isRepoFunc(fn) {
 			X.St.Funcs[name]++
+		}
+		if ph := PreHooks[name]; ph != nil {
+			ph(fr, args)
 		}
 	}
 
